@@ -112,6 +112,12 @@ def campaign(tier, seed=SEED, log=print):
                 if crash:
                     crashes.append(dict(file=fs[-1] if fs else "", rc=crash[0], stderr=crash[1][-1500:], records=n))
                 files += fs
+            if variant == "plain" and "PLANS" in gen.cfg_of(fx)["features"]:
+                f = os.path.join(cdir, "%s-%s-scenarios.ndjson" % (fxname, variant))
+                n, crash = explore.plan_scenarios(fx, exe, f, payloads=(0, 2) if gen.cfg_of(fx)["payload"] != "void" else (0,))
+                if crash:
+                    crashes.append(dict(file=f, rc=crash[0], stderr=crash[1][-1500:], records=n))
+                files.append(f)
             if variant == "plain":
                 feats = set(gen.cfg_of(fx)["features"])
                 for kind, fn in (("replica", explore.replica_walk), ("copy", explore.copy_walk)):
@@ -472,7 +478,7 @@ def c15_campaign(tier, seed=SEED, log=print):
     with ThreadPoolExecutor(max_workers=14) as pool:
         exes = list(pool.map(_build, todo))
     subsets = [("base", dict(plans=False, utility=False), set()),
-               ("plans", dict(plans=True, utility=False, planheavy=0.2), {"PLANS"}),
+               ("plans", dict(plans=True, utility=False, planheavy=0.3, cyclic=0.35, sameorigin=0.5), {"PLANS"}),
                ("utility", dict(plans=False, utility=True), {"UTILITY_THEORY"})]
     work = []
     for (fxname, fx, feats, variant), exe in zip(todo, exes):
@@ -486,10 +492,15 @@ def c15_campaign(tier, seed=SEED, log=print):
     def _run(item):
         fxname, fx, feats, variant, exe, sname, prof = item
         f = os.path.join(cdir, "%s-%s.ndjson" % (fx["name"], sname))
-        n, crash = explore.random_walks(fx, exe, f, seed * 4099 + sum(map(ord, fxname + sname)), (300 if tier == "quick" else 2000), profile=prof)
-        d, res = explore.validate(fx, [f], dev=open_switches(), jobs=1)
+        n, crash = explore.random_walks(fx, exe, f, seed * 4099 + sum(map(ord, fxname + sname)), ((600 if sname == "plans" else 300) if tier == "quick" else 2000), profile=prof)
+        files = [f]
+        if sname == "plans" and not crash:
+            f2 = os.path.join(cdir, "%s-%s-scenarios.ndjson" % (fx["name"], sname))
+            n2, crash = explore.plan_scenarios(fx, exe, f2)
+            files.append(f2)
+        d, res = explore.validate(fx, files, dev=open_switches(), jobs=1)
         c = gen.cfg_of(fx)
-        run = dict(fixture=fx["name"], variant=variant, features=list(feats), files=[f], checked=0, diffs=[], crashes=[], tlc_errors=[], notes={}, subset=sname,
+        run = dict(fixture=fx["name"], variant=variant, features=list(feats), files=files, checked=0, diffs=[], crashes=[], tlc_errors=[], notes={}, subset=sname,
                    group="%s/%s/limit%d/%s%s" % (fxname, sname, c["limit"], c["order"], "/taskcap%d" % c["taskcap"] if sname == "plans" else ""), payload=c["payload"], limit=c["limit"], taskcap=c["taskcap"])
         if crash:
             run["crashes"].append(dict(file=f, rc=crash[0], stderr=crash[1][-800:], records=n))
@@ -502,10 +513,11 @@ def c15_campaign(tier, seed=SEED, log=print):
         shutil.rmtree(d, ignore_errors=True)
         # the callback sequence of the run (for the cross-build comparison)
         h = hashlib.sha256()
-        with open(f) as fh:
-            for line in fh:
-                r = json.loads(line)
-                h.update(json.dumps([r["a"], [[e[0], e[1]] for e in r["ev"]], (r["post"] or {}).get("act") if isinstance(r["post"], dict) else None]).encode())
+        for ff in files:
+            with open(ff) as fh:
+                for line in fh:
+                    r = json.loads(line)
+                    h.update(json.dumps([r["a"], [[e[0], e[1]] for e in r["ev"]], (r["post"] or {}).get("act") if isinstance(r["post"], dict) else None]).encode())
         run["behaviour_hash"] = h.hexdigest()
         log("c15 %s/%s/%s: %d steps, %d diffs" % (fx["name"], variant, sname, run["checked"], len([x for x in run["diffs"] if ".D10" not in x["tag"]])))
         return run
